@@ -82,8 +82,9 @@ func runWireHistoryOnce(args []string) []string {
 		return []string{"wiring-error:" + strings.ReplaceAll(err.Error(), " ", "_")}
 	}
 	ctx, cancel := context.WithTimeout(context.Background(), 10*time.Second)
-	defer cancel()
-	if err := app.Start(ctx); err != nil {
+	startErr := app.Start(ctx)
+	cancel() // the start context ends when the start is over, as under fx.App.Run: nothing may go on living off it
+	if err := startErr; err != nil {
 		return []string{"infra:start"}
 	}
 	defer func() { _ = app.Stop(context.Background()) }()
@@ -214,8 +215,9 @@ func RunWirePar(k, rounds int) []string {
 		return []string{"wiring-error:" + strings.ReplaceAll(err.Error(), " ", "_")}
 	}
 	ctx, cancel := context.WithTimeout(context.Background(), 10*time.Second)
-	defer cancel()
-	if err := app.Start(ctx); err != nil {
+	startErr := app.Start(ctx)
+	cancel() // the start context ends when the start is over, as under fx.App.Run: nothing may go on living off it
+	if err := startErr; err != nil {
 		return []string{"infra:start"}
 	}
 	defer func() { _ = app.Stop(context.Background()) }()
